@@ -103,7 +103,7 @@ theorem prependTail_pair {X Y : Forest} {p c : Nat} {t : HTree} {vp : Value} {LY
             ((X.setValue kb.handle (.text (tc ++ tb))).spliceOut t.handle, true) := by
           rw [hfirst, hN]
           exact Forest.addConsolidate_next hc (hXtext.trans htd) (fun a h => by cases h)
-            ((S.xtext kb hkbmem).trans htb)
+            ((S.xtext kb hkbmem).trans htb) hkbc
         obtain ⟨ndLY, _⟩ := S.ysite.nodupKids
         have ndLY' : (handlesList (LY.takeWhile abn ++ kb :: rest)).Nodup := hLY ▸ ndLY
         have hflow := S.flow kb.handle (.text (tc ++ tb)) ⟨kb, hkbmem, rfl⟩ hkbc (hleaf_t htt) (by
